@@ -267,7 +267,7 @@ SRCF_STRATEGY_FUNCS = [
     (None, "valid_bits", {"bits": "str", "dialect": "optedialect"}), (None, "bits_to_int", {"bits": "str", "dialect": "optedialect"}),
     (None, "int_to_bits", {"int_val": "int", "dialect": "optedialect", "word_sep": "optstr"}),
     (None, "valid_bin", {"bin_val": "str", "dialect": "optedialect"}), (None, "int_to_bin", {"int_val": "int"}),
-    (None, "bin_to_int", {"bin_val": "str"})]
+    (None, "bin_to_int", {"bin_val": "str"}), (None, "int_to_str", {"int_val": "int", "dialect": "optedialect"})]
 SRCF_UNITS = [
     ("netaddr/strategy/eui48.py", "pysrc_eui48b_gen.v", "eui48_", SRCF_REQ, list(SRCF_STRATEGY_FUNCS)),
     ("netaddr/strategy/eui64.py", "pysrc_eui64b_gen.v", "eui64_", SRCF_REQ, list(SRCF_STRATEGY_FUNCS)),
@@ -277,6 +277,9 @@ SRCF_UNITS = [
         ("EUI", "__getitem__:int", {"idx": "int", "self._dialect": "edialect"}),
         ("EUI", "__setitem__", {"idx": "int", "value": "int", "self._dialect": "edialect"}),
         ("EUI", "__hash__", {})] + [("EUI", m, {"other": "eui"}) for m in ("__eq__", "__ne__", "__lt__", "__le__", "__gt__", "__ge__")] + [
+        ("EUI", "_validate_dialect", {"value": "darg"}), ("EUI", "_set_dialect", {"value": "darg"}),
+        ("EUI", "dialect", {"self._dialect": "edialect"}), ("EUI", "format", {"dialect": "darg"}),
+        ("EUI", "__str__", {"self._dialect": "edialect"}), ("EUI", "__getstate__", {"self._dialect": "edialect"}),
     ]),
 ]
 UNITS += SRCF_UNITS
@@ -2030,6 +2033,14 @@ class FnF(Fn):
                 if self.mod.imports.get("_" + m) == "netaddr.strategy." + m:
                     for c in ("width", "version", "max_int"):
                         self.attrs["_%s.%s" % (m, c)] = ("int", "src_%s_%s" % (m, c))
+        last = self.f.body[-1] if self.f.body else None
+        if (self.recv == "EUI" and isinstance(last, ast.Assign) and len(last.targets) == 1 and dotted(last.targets[0]) == "self._dialect"
+                and sum(1 for n in ast.walk(self.f) if isinstance(n, ast.Attribute) and not isinstance(n.ctx, ast.Load)) == 1
+                and not any(isinstance(n, ast.Return) for n in ast.walk(self.f))):
+            # a method whose only state assignment is its last statement `self._dialect = e` answers the new dialect
+            import copy
+            self.f = copy.copy(self.f)
+            self.f.body = self.f.body[:-1] + [ast.copy_location(ast.Return(value=last.value), last)]
         if self.recv == "EUI" and "self._dialect" in self.ptypes_declared:
             cn = self.coqname(self.f, "self_dialect")
             self.params.insert(0, (cn, "edialect"))
@@ -2163,6 +2174,10 @@ class FnF(Fn):
             base = env.get(head) if head in env else self.attrs.get(head)
             if base and base[0] == "edialect" and tail in ("word_size", "num_words", "word_sep", "word_fmt"):
                 return ("int" if tail in ("word_size", "num_words") else "str", "(d_%s %s)" % (tail, base[1]))
+        if (isinstance(node, ast.Name) and node.id not in env and isinstance(node.ctx, ast.Load)
+                and re.fullmatch(r"netaddr\.strategy\.eui(48|64)\.\w+", self.mod.imports.get(node.id) or "")
+                and not node.id.startswith("_")):
+            return ("edialect", self.dialect_rec(node, node.id))       # a dialect class imported from a strategy module: its record
         if (isinstance(node, ast.Compare) and len(node.ops) == 1 and isinstance(node.left, ast.Tuple)
                 and isinstance(node.comparators[0], ast.Tuple) and type(node.ops[0]) in CMP
                 and len(node.left.elts) == len(node.comparators[0].elts) > 0):
@@ -2213,6 +2228,13 @@ class FnF(Fn):
         if (self.recv == "EUI" and isinstance(f, ast.Attribute) and dotted(f) == "self._module." + f.attr
                 and "self._module" not in env):
             return self.module_call(node, env)
+        if (self.recv and self.recv not in STATEVARS and isinstance(f, ast.Attribute) and dotted(f) == "self." + f.attr
+                and f.attr != "__class__" and "self" not in env):
+            r = self.mod.lookup(self.recv, f.attr)          # self.m(args): arguments by m's signature and declared types
+            if not r or r[2]:
+                bad(node, "call of self.%s" % f.attr)
+            d = self.tr.get(self.recv, f.attr, node)
+            return self.generated(node, self.recv, f.attr, self.state(env), self.bind_args(node, d, env))
         if dotted(f) in ("_struct.pack", "_struct.unpack") and "_struct" not in env and self.plain_import("_struct", "struct"):
             if node.keywords or len(node.args) < 2:
                 bad(node, "struct call with an unsupported argument list")
@@ -2322,6 +2344,26 @@ class FnF(Fn):
                 dflt = dflt[1]
             cn, env = self.bind_local(a.targets[0], x, self.OPT[oty], env, t)
             return ("let", cn, "(match %s with Some h0 => h0 | None => %s end)" % (old, dflt), self.block(rest, env, k, after))
+        if (not neg and isinstance(t, ast.Compare) and len(t.ops) == 1 and isinstance(t.ops[0], ast.Is) and isinstance(t.left, ast.Name)
+                and isinstance(t.comparators[0], ast.Constant) and t.comparators[0].value is None
+                and env.get(t.left.id, ("",))[0] == "darg"):
+            # `if x is None` on a `darg`: the three kinds of Model/Eui.v darg; in the DRec arm x is the record, in the DBad arm x is
+            # an object for which `hasattr(x, 'word_size') and hasattr(x, 'word_fmt')` is false and nothing else is known
+            x, arms = t.left.id, []
+            cn = self.coqname(s, x + "_rec")
+            for kind, names, ty in (("DNone", [], ("none", None)), ("DRec", [cn], ("edialect", cn)), ("DBad", [], ("dbad", None))):
+                aenv = dict(env)
+                aenv[x] = ty
+                arms.append((kind, names, self.block((s.body if kind == "DNone" else s.orelse) + rest, aenv, k, after)))
+            return ("omatch", env[x][1], arms)
+        if (isinstance(t, ast.BoolOp) and isinstance(t.op, ast.And) and len(t.values) == 2 and "hasattr" not in env
+                and not self.mod.toplevel("hasattr") and all(
+                    isinstance(c, ast.Call) and dotted(c.func) == "hasattr" and len(c.args) == 2 and not c.keywords
+                    and isinstance(c.args[0], ast.Name) and isinstance(c.args[1], ast.Constant) for c in t.values)
+                and len({c.args[0].id for c in t.values}) == 1 and {c.args[1].value for c in t.values} == {"word_size", "word_fmt"}
+                and env.get(t.values[0].args[0].id, ("",))[0] in ("edialect", "dbad")):
+            yes = (env[t.values[0].args[0].id][0] == "edialect") != neg
+            return self.block((s.body if yes else s.orelse) + rest, env, k, after)
         if (isinstance(t, ast.Call) and dotted(t.func) == "_is_int" and "_is_int" not in env
                 and self.mod.imports.get("_is_int") == "netaddr.compat._is_int" and compat_lambda_isinstance("_is_int")):
             if len(t.args) != 1 or t.keywords or not isinstance(t.args[0], ast.Name) or env.get(t.args[0].id, ("",))[0] not in ("str", "int", "eui"):
